@@ -43,7 +43,7 @@ PROBES = ["append_or_insert_into_unterminated_document", "move_all_occurrences_o
 def generate(seed, run, tier):
     return repro_sim.generate_case(stream_rng(seed, ID, run, "world"),
                                    stream_rng(seed, ID, run, "swarm"),
-                                   stream_rng(seed, ID, run, "sched"), "C10")
+                                   stream_rng(seed, ID, run, "sched"), "C10", tier)
 
 
 def describe(case):
